@@ -8,7 +8,8 @@ O3 == O2 + NData
 O4 == O3 + NAccessList
 O5 == O4 + NChain
 O6 == O5 + NRandom
-Count == O6 + NShortSig
+O7 == O6 + NShortSig
+Count == O7 + NSigWidth
 ItemAt(g) ==
   IF g <= O1 THEN PresenceAt(g)
   ELSE IF g <= O2 THEN BoundaryAt(g - O1)
@@ -16,7 +17,8 @@ ItemAt(g) ==
   ELSE IF g <= O4 THEN AccessListAt(g - O3)
   ELSE IF g <= O5 THEN ChainAt(g - O4)
   ELSE IF g <= O6 THEN RandomAt(g - O5)
-  ELSE ShortSigAt(g - O6)
+  ELSE IF g <= O7 THEN ShortSigAt(g - O6)
+  ELSE SigWidthAt(g - O7)
 VARIABLE n
 INSTANCE GenBase
 =============================================================================
